@@ -781,8 +781,50 @@ pub fn structured_words() -> Vec<u32> {
     v
 }
 
+fn writeln_case(c: &mut Cases, req: &str, ans: &str) {
+    use std::io::Write;
+    writeln!(c.cases, "{req}").unwrap();
+    writeln!(c.imp, "{ans}").unwrap();
+    c.n += 1;
+    *c.dist.entry("termination-probe".to_string()).or_insert(0) += 1;
+    c.samples.push(format!("{req} => {ans}"));
+}
+
+/// Termination probe for the only loop in the crate whose exit is data dependent (`find_in_products`):
+/// run the key set on a helper thread and wait a bounded time.  Returns the key that was being searched
+/// when the time ran out.
+pub fn find_hangs() -> Option<u64> {
+    use std::sync::atomic::{AtomicU64, Ordering};
+    use std::sync::Arc;
+    let cur = Arc::new(AtomicU64::new(u64::MAX));
+    let done = Arc::new(AtomicU64::new(0));
+    let (c2, d2) = (cur.clone(), done.clone());
+    std::thread::spawn(move || {
+        let mut rng = Rng::new(77);
+        for k in find_keys(&mut rng, 50_000) {
+            c2.store(k, Ordering::SeqCst);
+            let _ = guarded(|| Five::find_in_products(k as usize));
+        }
+        d2.store(1, Ordering::SeqCst);
+    });
+    for _ in 0..300 {
+        if done.load(std::sync::atomic::Ordering::SeqCst) == 1 {
+            return None;
+        }
+        std::thread::sleep(std::time::Duration::from_millis(100));
+    }
+    Some(cur.load(std::sync::atomic::Ordering::SeqCst))
+}
+
 pub fn cases(prop: &str, thorough: bool, seed: u64, c: &mut Cases) {
     let mut rng = Rng::new(seed ^ 0xC0DE);
+    if matches!(prop, "C01" | "C02" | "C03" | "C05" | "C09" | "C13") {
+        if let Some(k) = find_hangs() {
+            // every ranking entry point goes through this loop: report it instead of hanging too
+            writeln_case(c, &format!("find {k}"), "does-not-return");
+            return;
+        }
+    }
     match prop {
         "C10" => {
             for w in structured_words() {
@@ -1186,6 +1228,17 @@ pub fn cases(prop: &str, thorough: bool, seed: u64, c: &mut Cases) {
 
 pub fn sweep(prop: &str, thorough: bool, seed: u64) -> Sweep {
     let _ = (thorough, seed);
+    if matches!(prop, "C01" | "C02" | "C03" | "C05" | "C08" | "C09" | "C13" | "C04" | "C06") {
+        if let Some(k) = find_hangs() {
+            let mut s = Sweep::default();
+            s.evaluations = 1;
+            s.nontrivial = 2;
+            s.rule = "termination probe of the product search (bounded wait on a helper thread)".into();
+            s.fail("Five::find_in_products does not return (the ranking entry points that reach it cannot return either)", &k.to_string(), "returns an index", "still running after 30 s");
+            s.sample(format!("find_in_products({k}) did not return"));
+            return s;
+        }
+    }
     match prop {
         "C10" => sweep_c10(),
         "C18" => sweep_c18(seed, thorough),
